@@ -208,3 +208,15 @@ func rigBatch(n int, want func(i int) bool, each func(r *rigT, i int)) map[int]*
 func (r *rigT) destroy(swamp string) {
 	r.gw.Destroy(bg, &hydrapb.DestroyRequest{IslandID: 1, SwampName: swamp})
 }
+
+// flush writes the swamp's pending records to its file (the call the write-interval listener makes).
+func (r *rigT) flush(swampName string) {
+	h := r.z.GetHydra()
+	for _, n := range h.ListActiveSwamps() {
+		if n == swampName {
+			if s, err := h.SummonSwamp(bg, 1, name.Load(swampName)); err == nil {
+				s.WriteTreasuresToFilesystem()
+			}
+		}
+	}
+}
